@@ -166,6 +166,8 @@ def random_single(rng, kind, n):
         elif need.n:
             steps.append({"a": "quiesce", "wait": need.wait()})
             budget_ms = 0
+            if rng.random() < 0.5:      # nothing is queued: a stream is bound again, with a NEW next writer
+                steps.append({"a": "rebind", "s": rng.choice(streams)})
     steps.append({"a": "quiesce", "wait": need.wait()})
     steps.append({"a": "close"})
     if rng.random() < 0.3:      # writes after Close: refused or accepted, never an obligation
@@ -246,6 +248,24 @@ def slow_writer_script(rng, kind):
     need.setrate(nr)
     steps += [{"a": "quiesce", "wait": need.wait() + 150}, {"a": "close"}]
     return {"kind": kind, "rate": rate * 1000, "ival": ival, "qsize": 1024, "streams": [1, 2], "steps": steps}
+
+
+def rate_cut_script(rng):
+    """pacing interceptor with a LONG interval: a backlog of about one burst is handed over (and sits in the loop's own queue)
+    before the first tick; the first release of that tick blocks in a slow downstream write; the rate is cut to a burst of
+    two or three packets while the loop is blocked there; what is still queued then leaves at the NEW rate."""
+    rate, ival = rng.choice([(1000, 100), (2000, 50)])
+    need = Need("pacing", rate, ival)
+    npk = (rate * ival) // (8 * 1012) + rng.choice([0, 2])
+    steps = [{"a": "hold", "ms": 40}]
+    for i in range(npk):
+        steps.append(wr(i + 1, rng.choice([1, 2]), 1000))
+        need.write(1012)
+    nr = rng.choice([200, 300])
+    steps += [{"a": "waithold"}, {"a": "sleep", "ms": 5}, {"a": "setrate", "rate": nr * 1000}]
+    need.setrate(nr)
+    steps += [{"a": "quiesce", "wait": need.wait() + 150}, {"a": "close"}]
+    return {"kind": "pacing", "rate": rate * 1000, "ival": ival, "qsize": 1024, "streams": [1, 2], "steps": steps}
 
 
 def pool_script(rng, kind):
@@ -504,7 +524,7 @@ def run(ctx):
     c_tb = [random_concurrent(rng, "pacing", rng.choice([2, 3, 4]), per) for _ in range(nc)]
     c_gcc = [random_concurrent(rng, k, rng.choice([2, 3, 4]), per) for k in ("leaky", "noop") for _ in range(nc // 2)]
     no, nsw = (8, 8) if quick else (300, 300)
-    x_tb = [overflow_script(rng) for _ in range(no)] + [slow_writer_script(rng, "pacing") for _ in range(nsw)]
+    x_tb = [overflow_script(rng) for _ in range(no)] + [slow_writer_script(rng, "pacing") for _ in range(nsw)] + [rate_cut_script(rng) for _ in range(2 if ctx.quick else 10)]
     x_gcc = [slow_writer_script(rng, "leaky") for _ in range(nsw // 2)]
     nflap, npool = (6, 12) if quick else (60, 120)
     x_tb += [rate_flap_script(rng) for _ in range(nflap)] + [pool_script(rng, "pacing") for _ in range(npool // 3)]
